@@ -26,7 +26,8 @@ RULE = ("ensembles (2..5 states, dimension 2..4, real/complex integer amplitudes
 ASSUMPTIONS = [
     "toqito computes with the float inputs it is given; the instance certified is their exact dyadic image (difference <= 1e-15 relative); a state vector v denotes the exact operator v v^H",
     "tolerance 2e-5 on CVXOPT-solved values (declared in DESIGN.md 4.4), 1e-3 for other solvers; 1e-4 on the POVM residuals of returned operators",
-    "unambiguous exclusion: only agreement of toqito's primal and dual values within 1e-4 on instances where both solves return (no certificate); weak duality of that pair is proved (unamb_excl_weak_duality)",
+    "unambiguous exclusion: only agreement of toqito's primal and dual values within 1e-4 on instances where both solves return (no certificate); weak duality of that pair is proved (unamb_excl_weak_duality); "
+    "when CVXOPT breaks down numerically at its default tolerance the call is repeated once with abs/rel_ipm_opt_tol=1e-6 (the remedy named in the function's docstring)",
     "the PBR threshold tan(theta/2) >= 2^(1/n) - 1 and the antidistinguishability of trine/BB84/Bell sets are cited facts; each is re-confirmed per instance by the certified interval",
     "is_antidistinguishable is only judged when the certified interval for all-ones weights is decisive (hi <= 1e-7 or lo > 1e-3)",
 ]
@@ -35,6 +36,7 @@ TAU_OTHER = 1e-3
 WIDTH_OK = 1e-4  # certified intervals wider than this are counted as uncertified (never a violation by themselves)
 ZERO_HI = 1e-7  # certified upper bound that confirms "value 0" for antidistinguishable sets
 POS_LO = 1e-3  # certified lower bound that confirms "not antidistinguishable"
+RELAXED = {"abs_ipm_opt_tol": 1e-6, "rel_ipm_opt_tol": 1e-6}  # second configuration for the unambiguous programs when CVXOPT breaks down at its default 1e-8
 
 
 # ------------------------------------------------------------------------------------------------
@@ -314,26 +316,38 @@ def work(task, res: Result):
             res.violation(f"certified interval [{lo:.3e}, {hi:.3e}] contradicts the cited status anti={inst['anti']} of family {fam} (harness or citation wrong)",
                           {"function": "family-status", "args": base, "certified": [lo, hi], "theorem": "checkExclPrimal_sound / checkExclDual_sound / excl_nonneg"})
     unamb = {}
-    for (strategy, pd, solver) in calls:
+    queue = [(s_, p_, v_, {}) for (s_, p_, v_) in calls]
+    while queue:
+        strategy, pd, solver, kw = queue.pop(0)
         desc = dict(base, strategy=strategy, primal_dual=pd, solver=solver, probs_given=inst["probs_given"])
-        args = dict(vectors=[np.asarray(s) for s in states], probs=(list(probs) if inst["probs_given"] else None), strategy=strategy, solver=solver, primal_dual=pd)
+        if kw:
+            desc["kwargs"] = kw
+        args = dict(vectors=[np.asarray(s) for s in states], probs=(list(probs) if inst["probs_given"] else None), strategy=strategy, solver=solver, primal_dual=pd, **kw)
+        cfg = solver + ("+relaxed-tol" if kw else "")
+
+        def numfail():
+            # CVXOPT's KKT solver breaking down numerically on a degenerate instance: runtime behaviour of the solver,
+            # not a statement about the optimum (DESIGN.md section 10); counted, never silently dropped
+            res.case(desc, False, f"{strategy}/{pd}/{cfg}/solver-numerical-failure")
+            if strategy == "unambiguous" and not kw and solver == "cvxopt":
+                # the remedy recommended in the function's own docstring (a looser interior-point tolerance), as a second configuration
+                queue.append((strategy, pd, solver, dict(RELAXED)))
+
         try:
             val, meas = _limited(state_exclusion, **args)
         except CallTimeout:
             # the solver did not finish within the CPU-time limit: runtime behaviour, counted in the evidence, no verdict
-            res.case(desc, False, f"{strategy}/{pd}/{solver}/solver-timeout")
+            res.case(desc, False, f"{strategy}/{pd}/{cfg}/solver-timeout")
             continue
         except TaskTimeout:
             raise
         except (ArithmeticError, ZeroDivisionError):
-            # CVXOPT's KKT solver breaking down numerically on a degenerate instance: runtime behaviour of the solver,
-            # not a statement about the optimum (DESIGN.md section 10); counted, never silently dropped
-            res.case(desc, False, f"{strategy}/{pd}/{solver}/solver-numerical-failure")
+            numfail()
             continue
         except Exception as e:
             if isinstance(e, ValueError) and "math domain error" in str(e):
                 # same breakdown surfacing as sqrt of a negative number inside cvxopt's scaling update
-                res.case(desc, False, f"{strategy}/{pd}/{solver}/solver-numerical-failure")
+                numfail()
                 continue
             if strategy == "unambiguous" and type(e).__name__ in ("SolutionFailure",):
                 res.case(desc, False, f"{strategy}/{pd}/{solver}/no-solution")
@@ -344,9 +358,9 @@ def work(task, res: Result):
             continue
         tau = TAU.get(solver, TAU_OTHER)
         val = float(np.real(val))
-        tag = f"{strategy}/{pd}/{solver}/{inst['form']}/{'c' if inst['cplx'] else 'r'}/{inst['kind']}"
+        tag = f"{strategy}/{pd}/{cfg}/{inst['form']}/{'c' if inst['cplx'] else 'r'}/{inst['kind']}"
         if strategy == "unambiguous":
-            unamb[(pd, solver)] = (val, desc)
+            unamb.setdefault((pd, solver), (val, desc))
             res.case(desc, False, tag)
             continue
         nontriv = certified and ((1e-2 <= lo and hi <= minp - 1e-2) or bool(fam_ok))
@@ -549,12 +563,6 @@ def run(ctx, model_ok=True):
     import toqito.state_props  # noqa: F401
     import toqito.states  # noqa: F401
     warnings.filterwarnings("ignore")
-    # matchers for defects of the unchanged tree, active only if the maintainer records them as known findings
-    ctx.matchers["excl_primal_complex_typeerror"] = lambda info: (info.get("function") == "state_exclusion" and info.get("args", {}).get("primal_dual") == "primal"
-                                                                   and info.get("cplx") and "TypeError" in info.get("exception", ""))
-    ctx.matchers["excl_dual_measurement_transposed"] = lambda info: (info.get("function") == "state_exclusion" and info.get("args", {}).get("primal_dual") == "dual"
-                                                                      and info.get("cplx") and info.get("check") == "povm-attains"
-                                                                      and abs(info.get("attained_by_transposes", 1e9) - info.get("impl", 0)) <= 1e-4)
     solvers = ["cvxopt"] if quick else (_sdp_solvers() or ["cvxopt"])
     ctx.extra["solvers"] = solvers
     calls = []
@@ -597,6 +605,11 @@ def replay(ctx, rec):
     elif a.get("fn") == "invariance":
         work_invariance((inst, arr(a["U"]), a["perm"]), res)
     else:
-        work((inst, [(a.get("strategy", "min_error"), a.get("primal_dual", "dual"), a.get("solver", "cvxopt"))]), res)
+        solver = a.get("solver", "cvxopt")
+        if a.get("strategy") == "unambiguous":  # the verdict compares the two forms
+            calls = [("unambiguous", "primal", solver), ("unambiguous", "dual", solver)]
+        else:
+            calls = [(a.get("strategy", "min_error"), a.get("primal_dual", "dual"), solver)]
+        work((inst, calls), res)
     from ..pool import fold
     fold(ctx, res)
